@@ -230,11 +230,16 @@ def report(prop, tier, seed, mod, results, native, wall):
     und_names = {u['fn'] for u in undecided_fns} | {o['fn'] for o in undecided_obl}
     all_proved = (len(proof) > 0 and len(discharged) + len([o for o in failed_proof if o.get('known_finding')]) == len(proof)
                   and not undecided_fns and not bad_vacuity)
-    level = 'proof' if (all_proved and not crashed and len(discharged) == len(proof)) else 'other'
+    # obligations refuted by a recorded known finding are reported apart (coverage.refuted_known_findings) and are not
+    # part of the proof count: the claim is "everything except the listed findings is discharged"
+    kf_refuted = [o for o in failed_proof if o.get('known_finding')]
+    proof_counted = [o for o in proof if not o.get('known_finding')]
+    level = 'proof' if (all_proved and not crashed and len(discharged) == len(proof_counted)) else 'other'
     samples = [dict(name=o['name'], verdict=o['status'], backend=o['backend'], ms=o['ms']) for o in proof[:6]]
     solver_ms = sum(o['ms'] for o in obls)
     cov = dict(
-        obligations=len(proof), discharged=len(discharged),
+        obligations=len(proof_counted), discharged=len(discharged),
+        refuted_known_findings=[dict(obligation=o['name'], finding=o.get('known_finding')) for o in kf_refuted],
         checker_cmd='./check %s --tier %s' % (prop, tier),
         trusted_base=sorted({t for r in results for t in r['trusted']} | set(getattr(mod, 'TRUSTED', []))),
         functions_under_contract=functions,
